@@ -35,6 +35,33 @@ type VerifOp struct {
 	MinGas        uint64 // gasCost on a zero stack of height MinStack, empty memory, memorySize 0
 	GasProbeOK    bool   // the probe returned without error/panic
 	ConstGas      bool   // no memorySize function and every probe (zero / small / all-ones stacks, two contracts) gave MinGas
+	// memory operands, recovered by probing the operation's memorySize function with one / two non-zero
+	// stack slots: the requested size is the maximum over the ranges of (size == 0 ? 0 : offset + size)
+	MemRanges   []VerifMemRange
+	MemRangesOK bool // the recovered ranges reproduce memorySize on a mixed probe stack
+	// gas charged on top of MinGas when the operation is priced with memorySize = 64 / 32768 bytes on empty
+	// memory (zero stack): the memory-expansion part as the gas function really charges it
+	MemGas2    uint64
+	MemGas1024 uint64
+	// other operand-dependent part (not for the call family, whose cost contains the callee's gas):
+	// PerWord gas per 32-byte word, or PerByte gas per byte, of the value in stack slot DynSlot
+	DynSlot int
+	PerWord uint64
+	PerByte uint64
+}
+
+type VerifMemRange struct {
+	Off       int // stack slot (Back index) holding the offset
+	SizeSlot  int // stack slot holding the size, -1 when the size is the constant ConstSize
+	ConstSize uint64
+}
+
+func verifStackWith(n int, set map[int]uint64) *Stack {
+	st := verifStack(n)
+	for slot, v := range set {
+		st.data[len(st.data)-1-slot].SetUint64(v)
+	}
+	return st
 }
 
 func verifStack(n int) *Stack { return verifStackOf(n, new(big.Int)) }
@@ -95,6 +122,91 @@ func VerifJumpTable(am AccountManager, funded common.Address) [256]VerifOp {
 						if err2 != nil || g2 != g {
 							v.ConstGas = false
 						}
+					}
+				}
+			}()
+		}
+		v.DynSlot = -1
+		if v.MinStack >= 0 && o.memorySize != nil {
+			func() {
+				defer func() {
+					if r := recover(); r != nil {
+						v.MemRangesOK = false
+					}
+				}()
+				n := v.MinStack
+				const A = 1 << 20
+				ms := func(set map[int]uint64) uint64 { return o.memorySize(verifStackWith(n, set)).Uint64() }
+				base := ms(nil) // constant-size ranges at offset 0
+				var sizeSlots []int
+				for a := 0; a < n; a++ {
+					r := ms(map[int]uint64{a: A})
+					switch {
+					case base != 0 && r == A+base:
+						v.MemRanges = append(v.MemRanges, VerifMemRange{Off: a, SizeSlot: -1, ConstSize: base})
+					case base == 0 && r == A:
+						sizeSlots = append(sizeSlots, a)
+					}
+				}
+				for _, sz := range sizeSlots {
+					for a := 0; a < n; a++ {
+						if a != sz && ms(map[int]uint64{sz: 1, a: A}) == A+1 {
+							v.MemRanges = append(v.MemRanges, VerifMemRange{Off: a, SizeSlot: sz})
+						}
+					}
+				}
+				// check the recovered description on a mixed stack
+				set := map[int]uint64{}
+				for a := 0; a < n; a++ {
+					set[a] = uint64(1000*(a+1) + 7)
+				}
+				var want uint64
+				for _, r := range v.MemRanges {
+					size := r.ConstSize
+					if r.SizeSlot >= 0 {
+						size = set[r.SizeSlot]
+					}
+					if size != 0 && set[r.Off]+size > want {
+						want = set[r.Off] + size
+					}
+				}
+				v.MemRangesOK = len(v.MemRanges) > 0 && ms(set) == want
+				self := AccountRef(common.HexToAddress("0x7e57c16"))
+				for _, probe := range []struct {
+					size uint64
+					dst  *uint64
+				}{{64, &v.MemGas2}, {32768, &v.MemGas1024}} {
+					c := NewContract(self, self, new(big.Int), 1<<40)
+					g, err := o.gasCost(in.gasTable, evm, c, verifStack(n), NewMemory(), probe.size)
+					if err != nil || g < v.MinGas {
+						v.MemRangesOK = false
+					} else {
+						*probe.dst = g - v.MinGas
+					}
+				}
+			}()
+		}
+		if v.MinStack >= 0 && v.GasProbeOK && i != int(CALL) && i != int(CALLCODE) && i != int(DELEGATECALL) && i != int(STATICCALL) {
+			func() {
+				defer func() { recover() }()
+				self := AccountRef(common.HexToAddress("0x7e57c16"))
+				gas := func(slot int, val uint64) (uint64, bool) {
+					c := NewContract(self, self, new(big.Int), 1<<40)
+					g, err := o.gasCost(in.gasTable, evm, c, verifStackWith(v.MinStack, map[int]uint64{slot: val}), NewMemory(), 0)
+					return g - v.MinGas, err == nil && g >= v.MinGas
+				}
+				for a := 0; a < v.MinStack; a++ {
+					d64, ok1 := gas(a, 64)
+					d65, ok2 := gas(a, 65)
+					d96, ok3 := gas(a, 96)
+					if !ok1 || !ok2 || !ok3 || d64 == 0 {
+						continue
+					}
+					switch {
+					case d64%2 == 0 && d65 == d64/2*3 && d96 == d65:
+						v.DynSlot, v.PerWord = a, d64/2
+					case d64%64 == 0 && d65 == d64/64*65 && d96 == d64/64*96:
+						v.DynSlot, v.PerByte = a, d64/64
 					}
 				}
 			}()
